@@ -17,7 +17,16 @@ from typing import (
 import hugr.model as model
 from hugr._serialization.ops import OpType as SerialOp
 from hugr._serialization.serial_hugr import SerialHugr
-from hugr.ops import Call, Const, Custom, DataflowOp, Module, Op
+from hugr.ops import (
+    Call,
+    Const,
+    Custom,
+    DataflowOp,
+    LoadConst,
+    LoadFunc,
+    Module,
+    Op,
+)
 from hugr.tys import Kind, Type, ValueKind
 from hugr.utils import BiMap
 from hugr.val import Value
@@ -59,6 +68,23 @@ class NodeData:
         o = self.op._to_serial(self.parent if self.parent else node)
 
         return SerialOp(root=o)  # type: ignore[arg-type]
+
+
+def _order_port_offset(op: Op, direction: Direction) -> PortOffset | None:
+    """Offset of the state order port of a dataflow operation: the first port
+    after the value ports and the static input port, whether or not those are
+    connected. None if the operation has no dataflow signature.
+    """
+    if isinstance(op, Call):
+        sig = op.instantiation
+    elif isinstance(op, DataflowOp):
+        sig = op.outer_signature()
+    else:
+        return None
+    if direction == Direction.OUTGOING:
+        return len(sig.output)
+    static_input = isinstance(op, Call | LoadConst | LoadFunc)
+    return len(sig.input) + int(static_input)
 
 
 _SO = _SubPort[OutPort]
@@ -683,7 +709,9 @@ class Hugr(Mapping[Node, NodeData], Generic[OpVarCov]):
         # not counted in the number of ports.
         if p.offset < 0:
             assert p.offset == -1, "Only order edges are allowed with offset < 0"
-            offset = self.num_ports(p.node, p.direction)
+            offset = _order_port_offset(self[p.node].op, p.direction)
+            if offset is None:
+                offset = self.num_ports(p.node, p.direction)
         else:
             offset = p.offset
 
